@@ -297,15 +297,69 @@ def narrowing(chk, db, rule, names):
         if f['file'] == 'nop/base/encoding.h':
             continue     # arithmetic encoders: decided by the integer layer
         allowed_store = set()
+        # refusal guards of the function: `x > K` with a constant K (after constant folding), by the variable they test
+        guards = {}
+
+        def live(node):
+            """sub-expressions that can be evaluated: the right operand of `false && x` / `true || x` cannot"""
+            if isinstance(node, list):
+                for x in node:
+                    for z in live(x):
+                        yield z
+                return
+            if not isinstance(node, dict):
+                return
+            yield node
+            if node.get('k') == 'bin' and node.get('op') in ('&&', '||'):
+                lc = ir.const_of(ir.strip_all_casts(node['l']))
+                for z in live(node['l']):
+                    yield z
+                dead = lc is not None and ((node['op'] == '&&' and not lc) or (node['op'] == '||' and lc))
+                if not dead:
+                    for z in live(node['r']):
+                        yield z
+                return
+            for kk2, v in node.items():
+                if kk2 not in ('callee', 'loc'):
+                    for z in live(v):
+                        yield z
+        for y in live(f['body']):
+            if y.get('k') == 'bin' and y.get('op') in ('>', '>='):
+                lv, kk = ir.strip_all_casts(y['l']), ir.const_of(ir.strip_all_casts(y['r']))
+                if lv.get('k') == 'ref' and kk is not None:
+                    guards.setdefault(lv.get('id'), []).append(kk if y['op'] == '>' else kk - 1)
         for y in ir.walk(f['body']):
             if y.get('k') == 'bin' and y['op'] == '=':
                 l = ir.strip(y['l'])
                 if l.get('k') == 'call' and ir.callee_name(l) == 'size':
-                    allowed_store.add(id(y['r']))
+                    # the store of the decoded count into the buffer's own size member is exempt only when the count was
+                    # refused above a bound the member's type can represent (capacity or numeric_limits<member>::max())
                     r = y['r']
+                    chain = [r]
                     while isinstance(r, dict) and r.get('k') in ('icast', 'cast'):
-                        allowed_store.add(id(r))
                         r = r['e']
+                        chain.append(r)
+                    src = ir.strip_all_casts(r)
+                    to = termx.tname(chain[0].get('to') or '') if isinstance(chain[0], dict) else ''
+                    bits = termx.BITS.get(to)
+                    unsigned = to.startswith('unsigned') or to in ('bool', 'char16_t', 'char32_t')
+                    tmax = None if bits is None else ((1 << bits) - 1 if unsigned else (1 << (bits - 1)) - 1)
+                    bounds = list(guards.get(src.get('id'), [])) if src.get('k') == 'ref' else []
+                    if src.get('k') == 'ref':
+                        # a local defined as `other / c`: a bound on `other` bounds it as well
+                        for y2 in ir.walk(f['body']):
+                            if y2.get('k') == 'decl':
+                                for v2 in y2['vars']:
+                                    if v2.get('id') == src.get('id') and v2.get('init') is not None:
+                                        d = ir.strip_all_casts(v2['init'])
+                                        if d.get('k') == 'bin' and d.get('op') == '/':
+                                            num, den = ir.strip_all_casts(d['l']), ir.const_of(ir.strip_all_casts(d['r']))
+                                            if num.get('k') == 'ref' and den:
+                                                bounds += [k // den for k in guards.get(num.get('id'), [])]
+                    bounded = tmax is not None and any(k <= tmax for k in bounds)
+                    if bounded or tmax is None:
+                        for c in chain:
+                            allowed_store.add(id(c))
         for y in ir.walk(f['body']):
             if y.get('k') in ('icast', 'cast') and y.get('ck') == 'IntegralCast' and 'cv' not in y:
                 a, b = termx.tname(y['from']), termx.tname(y['to'])
@@ -320,7 +374,7 @@ def narrowing(chk, db, rule, names):
         chk.decide(ok, rule, '%s:%d %s (%s->%s of %s)' % key,
                    '%s: run-time value `%s` converted from %s to %s%s' % (
                        ir.fn_label(f)[:90], key[5], key[3], key[4],
-                       ' (store into the buffer\'s own size member)' if ok else ': values above the narrower range are lost'),
+                       ' (store into the buffer\'s own size member, refused above a bound the member can represent)' if ok else ': values above the narrower range are lost'),
                    function=ir.fn_label(f))
     # the rule has zero expected violations; record the scan as one discharged obligation per scanned function group
     scanned = sorted({(f['file'], f['n']) for f in db.fns if f['file'].startswith('nop/base/') and f['n'] in names})
